@@ -15,7 +15,7 @@ Flags == {TupV(<<IntV(a), BoolV(b)>>) : a \in 0..2, b \in BOOLEAN}
 
 U == {Fn("id", 0), Fn("addc", 1), Fn("addc", 2), Fn("addc", 100), Fn("mulc", 2), Fn("mulc", -1),
       Fn("modc", 2), Fn("modc", 3), Fn("divc", 2), Fn("divc", 3), Fn("constc", 0), Fn("dup", 0),
-      Fn("noneIf", 2), Fn("failIf", 1), Fn("failIf", 2), Fn("failIf", 4), Fn("failMod", 1),
+      Fn("noneIf", 2), Fn("nanIf", 1), Fn("failIf", 1), Fn("failIf", 2), Fn("failIf", 4), Fn("failMod", 1),
       Fn("list3", 0), Fn("listn", 0)}
 UP == {Fn("fst", 0), Fn("snd", 0), Fn("fstmodc", 2)}
 P == {Fn("true", 0), Fn("false", 0), Fn("even", 0), Fn("ltc", 1), Fn("ltc", 2), Fn("ltc", 3), Fn("ltc", 4),
